@@ -6,6 +6,7 @@ package main
 // the order of every I/O-bounded window of conn.go; everything in between is the library's.
 
 import (
+	"bytes"
 	"context"
 	"crypto/sha1"
 	"encoding/binary"
@@ -161,7 +162,12 @@ func (bodyCodec) Marshal(buf []byte, v interface{}) ([]byte, error) {
 	return nil, errors.New("harness: unsupported args type")
 }
 
+var errBadBody = errors.New("harness: body does not decode")
+
 func (bodyCodec) Unmarshal(data []byte, v interface{}) error {
+	if bytes.HasPrefix(data, []byte("BADBODY")) {
+		return errBadBody // a reply this codec cannot decode into the caller's Reply
+	}
 	if p, ok := v.(*[]byte); ok {
 		*p = append((*p)[:0:0], data...)
 		return nil
@@ -442,6 +448,9 @@ func classify(err error) string {
 		return "timeout"
 	}
 	s := err.Error()
+	if strings.HasPrefix(s, "reading body ") {
+		return "bodyerr"
+	}
 	if strings.HasPrefix(s, "E#") {
 		// handler error texts generated by the harness: "text:k:n" iff it is exactly the text
 		// generated for call k with length n (verbatim, every byte)
@@ -583,6 +592,8 @@ func (e *connEnv) respond(k int, kind string) bool {
 		frame = encodeResponse(e.hdr, resVal{Seq: rec.seq, Err: []byte("The connection is shut down")})
 	case kind == "empty":
 		frame = encodeResponse(e.hdr, resVal{Seq: rec.seq})
+	case kind == "badbody":
+		frame = encodeResponse(e.hdr, resVal{Seq: rec.seq, Reply: []byte(fmt.Sprintf("BADBODY-%d", k))})
 	default:
 		frame = encodeResponse(e.hdr, resVal{Seq: rec.seq, Reply: rec.want})
 	}
